@@ -63,22 +63,31 @@ def Snd.frames (s : Snd) : Nat :=
   | .standard => s.samples.length
   | .extended _ f _ _ _ _ => f
 
+def Format.Valid : Format → Prop
+  | .fmt1 dts => dts.length < 32768 ∧ ∀ b ∈ dts, b.length = 6
+  | .fmt2 rc => rc.length = 2
+
+def Header.Valid (sampleBytes : Nat) : Header → Prop
+  | .standard => sampleBytes < 2 ^ 31
+  | .extended c f b aiff ptrs future =>
+      c < 2 ^ 31 ∧ f < 2 ^ 31 ∧ (b = 8 ∨ b = 16) ∧ aiff.length = 10 ∧ ptrs.length = 12 ∧ future.length = 14 ∧
+      sampleBytes = f * c * (b / 8)
+
 /-- well-formedness: every field fits its slot and the sample area has frames × channels × width bytes -/
 def Valid (s : Snd) : Prop :=
-  (match s.format with
-    | .fmt1 dts => dts.length < 32768 ∧ ∀ b ∈ dts, b.length = 6
-    | .fmt2 rc => rc.length = 2) ∧
+  s.format.Valid ∧
   s.nulls.length + 1 < 32768 ∧ (∀ b ∈ s.nulls, b.length = 6) ∧
   s.param1.length = 2 ∧ s.rateInt < 65536 ∧ s.rateFrac.length = 2 ∧ s.loops.length = 8 ∧
-  (match s.header with
-    | .standard => s.samples.length < 2 ^ 31
-    | .extended c f b aiff ptrs future =>
-        c < 2 ^ 31 ∧ f < 2 ^ 31 ∧ (b = 8 ∨ b = 16) ∧ aiff.length = 10 ∧ ptrs.length = 12 ∧ future.length = 14 ∧
-        s.samples.length = f * c * (b / 8))
+  s.header.Valid s.samples.length
+
+instance (f : Format) : Decidable f.Valid := by
+  cases f <;> unfold Format.Valid <;> exact inferInstance
+
+instance (n : Nat) (h : Header) : Decidable (h.Valid n) := by
+  cases h <;> unfold Header.Valid <;> exact inferInstance
 
 instance (s : Snd) : Decidable (Valid s) := by
-  unfold Valid
-  cases s.format <;> cases s.header <;> exact inferInstance
+  unfold Valid; exact inferInstance
 
 def be16 (n : Nat) : Bytes := encOrd .be 2 n
 def be32 (n : Nat) : Bytes := encOrd .be 4 n
